@@ -643,3 +643,100 @@ func (c *Ctx) ctxUserOnly(v ssa.Value) (bool, string) {
 	}
 	return ok, names(os)
 }
+
+// role resolves an unexported helper the rules are anchored in: by its name
+// on the pinned tree and, when a refactoring renamed, merged or inlined it,
+// by what it does. Unexported names are not part of anybody's contract, so a
+// missing name alone must not fail a check.
+func (c *Ctx) role(name string, find func() *ssa.Function) *ssa.Function {
+	if f := c.P.FuncOpt(name); f != nil {
+		return f
+	}
+	if find != nil {
+		if f := find(); f != nil {
+			return f
+		}
+	}
+	AnchorFail("anchor function %s not found (neither by name nor by what it does)", name)
+	return nil
+}
+
+// storesField finds the repository functions storing into the named field.
+func (c *Ctx) storesField(field string, pred func(*ssa.Store) bool) []*ssa.Function {
+	var out []*ssa.Function
+	for _, f := range c.P.Funcs {
+		found := false
+		for _, b := range f.Blocks {
+			for _, in := range b.Instrs {
+				if st, ok := in.(*ssa.Store); ok {
+					if fa, ok := st.Addr.(*ssa.FieldAddr); ok && fieldName(fa) == field && (pred == nil || pred(st)) {
+						found = true
+					}
+				}
+			}
+		}
+		if found {
+			out = append(out, f)
+		}
+	}
+	return out
+}
+
+// flushFunc: the function that latches hasWritten=true (putClientState).
+func (c *Ctx) flushFunc() *ssa.Function {
+	return c.role("(*ab.ClientStateResponseWriter).putClientState", func() *ssa.Function {
+		fs := c.storesField("hasWritten", func(st *ssa.Store) bool { v, ok := ConstBool(st.Val); return ok && v })
+		if len(fs) == 1 {
+			return fs[0]
+		}
+		return nil
+	})
+}
+
+// queueFunc: the function that appends to both event queues (setState).
+func (c *Ctx) queueFunc() *ssa.Function {
+	return c.role("ab.setState", func() *ssa.Function {
+		a := c.storesField("sessionStateEvents", nil)
+		b := c.storesField("cookieStateEvents", nil)
+		for _, f := range a {
+			for _, g := range b {
+				if f == g && !c.isRequestEntryLike(f) {
+					return f
+				}
+			}
+		}
+		return nil
+	})
+}
+
+// isRequestEntryLike: constructors of the writer also store the queue fields (as nil/empty).
+func (c *Ctx) isRequestEntryLike(f *ssa.Function) bool {
+	n := FuncName(f)
+	return strings.HasSuffix(n, ".NewResponse") || strings.HasSuffix(n, ".LoadClientState")
+}
+
+// calleeWith: the unique repository function statically called by `from`
+// that satisfies pred; `from` itself when it satisfies pred (helper inlined).
+func (c *Ctx) calleeWith(from *ssa.Function, pred func(*ssa.Function) bool) *ssa.Function {
+	var found []*ssa.Function
+	for _, call := range Calls(from) {
+		if g := StaticCallee(call); g != nil && c.inRepo(g) && g != from && pred(g) {
+			dup := false
+			for _, x := range found {
+				if x == g {
+					dup = true
+				}
+			}
+			if !dup {
+				found = append(found, g)
+			}
+		}
+	}
+	if len(found) == 1 {
+		return found[0]
+	}
+	if len(found) == 0 && pred(from) {
+		return from
+	}
+	return nil
+}
